@@ -2523,3 +2523,76 @@ func ruleProviderTypeResultsFresh(c *Ctx, rule string) {
 		c.ok(rule, fmt.Sprintf("parseProviderType results are never retained (%d in-place modification(s) of received results are therefore private)", inPlace), "scan of map updates and stores of *parseProviderTypeResult")
 	}
 }
+
+// ruleLoopsMakeProgress: a condition-controlled loop of the generator changes at least one of the variables its condition
+// reads on every way back to the loop head. A way back that changes none of them repeats forever: the generator neither
+// accepts nor refuses its input, it hangs.
+func ruleLoopsMakeProgress(c *Ctx, rule string, pkgs ...string) {
+	L := c.L
+	n := 0
+	for _, fn := range pkgFuncs(L, pkgs...) {
+		for _, h := range fn.Blocks {
+			if !strings.HasPrefix(h.Comment, "for.loop") || len(h.Instrs) == 0 {
+				continue
+			}
+			iff, ok := h.Instrs[len(h.Instrs)-1].(*ssa.If)
+			if !ok {
+				continue
+			}
+			// the loop-carried variables the condition depends on
+			phis := map[*ssa.Phi]bool{}
+			var dep func(v ssa.Value, d int)
+			dep = func(v ssa.Value, d int) {
+				if d > 8 || v == nil {
+					return
+				}
+				switch x := v.(type) {
+				case *ssa.Phi:
+					if x.Block() == h {
+						phis[x] = true
+					}
+				case *ssa.BinOp:
+					dep(x.X, d+1)
+					dep(x.Y, d+1)
+				case *ssa.UnOp:
+					dep(x.X, d+1)
+				case *ssa.Call:
+					for _, a := range x.Common().Args {
+						dep(a, d+1)
+					}
+				case *ssa.ChangeInterface:
+					dep(x.X, d+1)
+				case *ssa.MakeInterface:
+					dep(x.X, d+1)
+				}
+			}
+			dep(iff.Cond, 0)
+			// compound conditions (a && b) put the second test in another block of the loop head region
+			for _, s := range h.Succs {
+				if len(s.Instrs) > 0 && h.Dominates(s) && strings.HasPrefix(s.Comment, "cond.") {
+					if i2, ok := s.Instrs[len(s.Instrs)-1].(*ssa.If); ok {
+						dep(i2.Cond, 0)
+					}
+				}
+			}
+			if len(phis) == 0 {
+				continue // the condition reads memory or calls (queues, iterators): not decidable here
+			}
+			n++
+			for i, p := range h.Preds {
+				if !h.Dominates(p) {
+					continue // loop entry
+				}
+				unchanged := true
+				for ph := range phis {
+					if i < len(ph.Edges) && ph.Edges[i] != ssa.Value(ph) {
+						unchanged = false
+					}
+				}
+				c.check(!unchanged, rule, fnName(fn)+":loop-progress", L.pos(iff.Cond.Pos()),
+					"every way back to the head of a condition-controlled loop changes a variable the condition reads", fmt.Sprintf("back edge from block %d (%s) leaves %d loop variable(s) unchanged", p.Index, p.Comment, len(phis)))
+			}
+		}
+	}
+	c.floor(rule, "condition-controlled loops over loop-carried variables", n, 1)
+}
